@@ -92,11 +92,11 @@ Section Credit.
     unfold on_request. intros E Hb HG Hr.
     destruct (q_mid q <=? MSG_ID_SPECIAL).
     { destruct (q_mid q =? MSG_ID_OOB); [|destruct (q_mid q =? MSG_ID_CLOSE)]; inversion E; subst; cbn; try exact HG.
-      intros Hd c Hc. apply del_client_In in Hc as [Hc _]. apply (HG Hd c Hc). }
+      intros Hd c Hc. apply andb_true_iff in Hd as [Hd _]. apply del_client_In in Hc as [Hc _]. apply (HG Hd c Hc). }
     destruct (negb (has_client _ _ _) && s_handshake s && q_new q); [inversion E; subst; cbn; exact HG|].
     destruct ((sf_msg_id f <=? q_mid q) && (q_eph q =? 0)); [inversion E; subst; contradiction|].
     rewrite Hb in E. destruct (scan false _ _ _ _ _) as [[cl' ds1] outs] eqn:Es. inversion E; subst; clear E. cbn.
-    intros Hd c Hc He. destruct (scan_do_send _ _ _ _ _ _ _ _ Es Hd) as [_ H].
+    intros Hd c Hc He. apply andb_true_iff in Hd as [Hd _]. destruct (scan_do_send _ _ _ _ _ _ _ _ Es Hd) as [_ H].
     pose proof (scan_subset _ _ _ _ _ _ _ _ _ Es c Hc) as Hin.
     apply H; [exact Hin| |exact He].
     destruct (c_tlast c <? _) eqn:Et; [|reflexivity].
